@@ -641,9 +641,10 @@ func finish(o *hx.Out, h *H, kindKey string) {
 	o.Case("sched", input, res, key)
 	for sig, det := range h.viol {
 		// each property reports its own verdicts: C04 the fence/head ones, C03 the ack/truncate ones
-		mine := strings.HasPrefix(sig, "fenced:") || strings.HasPrefix(sig, "newterm:")
+		mine := strings.HasPrefix(sig, "fenced:") || strings.HasPrefix(sig, "newterm:") || strings.HasPrefix(sig, "restart:term-")
 		if *focus == "c03" {
-			mine = strings.HasPrefix(sig, "ack:") || strings.HasPrefix(sig, "truncate:") || strings.HasPrefix(sig, "attach:") || strings.HasPrefix(sig, "restart:") || strings.HasPrefix(sig, "apply:")
+			mine = strings.HasPrefix(sig, "ack:") || strings.HasPrefix(sig, "truncate:") || strings.HasPrefix(sig, "attach:") ||
+				(strings.HasPrefix(sig, "restart:") && !strings.HasPrefix(sig, "restart:term-")) || strings.HasPrefix(sig, "apply:")
 		}
 		if !mine {
 			o.Count("other-property-verdict:" + sig)
@@ -937,6 +938,15 @@ func main() {
 	runSnapFailThenNewTerm(o, 2)
 	runSnapFailThenNewTerm(o, 3)
 	runSnapshotVsBusyApply(o)
+	// kill -9 at the moment of an answer: the node goes on from an image of its directories
+	for _, kind := range []int{0, 1} {
+		runKillAfterNewTerm(o, false, kind)
+		runKillAfterNewTerm(o, true, kind)
+	}
+	runAppendDuringFlush(o)
+	for i := 0; i < f.N/5+2; i++ {
+		runGeneratedKills(o, r.Fork(), 25+r.Intn(25))
+	}
 	// leader attaches a real follower: decision + replication end to end
 	if *focus == "c03" {
 		runAttach(o, mkLog(1, 2), mkLog(1, 1, 3, 3), 4)
